@@ -75,6 +75,9 @@ func c13Schedule(rng *rand.Rand, wc wcodec, big bool) []wOp {
 
 func runC13(r *vhlib.Run) {
 	rng := r.Rng
+	// the bit writer under every Writer: prefix.Writer against its implementation-level model
+	// (Prefix/WriterImpl.v) over scripted sinks that fail with short counts, once or permanently
+	runWBITW(r)
 	nsched := 6
 	if !r.Quick() {
 		nsched = 60
